@@ -1,6 +1,7 @@
 """C15 - PRFs are deterministic, prefix-consistent and equal to HMAC / HKDF / AES-CMAC."""
 import collections
 import json
+import os
 
 import vlib
 
@@ -123,12 +124,25 @@ def run(ctx):
     ctx.log(r.stdout.strip())
     _coverage(ctx, trace)
     _shuffle(ctx, trace)
-    mism, n = ctx.validate_events("Trace_PRF", trace, heap="4g")
-    ctx.cov["traces_validated_against_impl"] += 1
-    ctx.cov["events"] = n
     lines = open(trace).read().splitlines()
     for k in (15, len(lines) // 3, len(lines) // 2, len(lines) - 300):
         ctx.sample(json.loads(lines[k]))
+    # large traces are validated in pieces of <= 100k events (16 TLC shards each) to bound the JVM heaps
+    mism, n, step, first = [], 0, 100000, None
+    for j in range(0, len(lines), step):
+        piece = ctx.scratch + "/c15-%d.ndjson" % (j // step)
+        open(piece, "w").write("\n".join(lines[j:j + step]) + "\n")
+        mm, k = ctx.validate_events("Trace_PRF", piece, heap="3g", max_findings=4, stage="T:Trace_PRF/%d" % (j // step))
+        mism += mm
+        n += k
+        if first is None:
+            first = piece
+        else:
+            os.remove(piece)
+    del lines
+    trace = first
+    ctx.cov["traces_validated_against_impl"] += 1
+    ctx.cov["events"] = n
     spec_bugs = [m for m in mism if m["bad"][0].startswith("SPEC:") or m["bad"][0] == "unknown event"]
     if spec_bugs:
         raise vlib.Infra("Trace_PRF: reference/driver inconsistency: %s" % json.dumps(vlib._shorten(spec_bugs[0]))[:1200])
